@@ -79,7 +79,8 @@ theorem cdsByName_none {s : GState} {n : Str} : s.cdsByName n = none ↔ n ∉ s
     have := h x hx
     simpa using this
 
-theorem hasLocation_false {s : GState} {l : Loc} : s.hasLocation l = false ↔ l ∉ s.cdss.map (·.2) := by
+theorem hasLocation_false {s : GState} {l : Loc} :
+    s.hasLocation l = false ↔ locChars l ∉ s.cdss.map (fun x => locChars x.2) := by
   unfold GState.hasLocation
   simp only [List.any_eq_false, List.mem_map, not_exists, not_and]
   constructor
@@ -90,11 +91,41 @@ theorem hasLocation_false {s : GState} {l : Loc} : s.hasLocation l = false ↔ l
     have := h x hx
     simpa using this
 
+/-! ### the checksum is made of hex digits, which are legal gene-id characters -/
+
+def hexChars : List Char := ['0', '1', '2', '3', '4', '5', '6', '7', '8', '9', 'a', 'b', 'c', 'd', 'e', 'f']
+
+theorem hexChar_mem : ∀ d, d < 16 → hexChar d ∈ hexChars := by decide
+
+/-- table fact: no hex digit is an illegal gene-id character -/
+theorem hexChars_legal : hexChars.all (fun c => !illegalGeneChars.contains c) = true := by decide
+
+theorem hexAux_mem : ∀ (fuel n : Nat) (acc : Str), (∀ c ∈ acc, c ∈ hexChars) → ∀ c ∈ hexAux fuel n acc, c ∈ hexChars
+  | 0, _, acc, h => by simpa [hexAux] using h
+  | fuel + 1, n, acc, h => by
+    have hd : hexChar (n % 16) ∈ hexChars := hexChar_mem _ (Nat.mod_lt _ (by decide))
+    have h' : ∀ c ∈ hexChar (n % 16) :: acc, c ∈ hexChars := by
+      intro c hc
+      rcases List.mem_cons.mp hc with rfl | hc
+      · exact hd
+      · exact h c hc
+    unfold hexAux
+    split
+    · exact h'
+    · exact hexAux_mem fuel (n / 16) _ h'
+
+theorem locationChecksum_safe (l : Loc) : GSafe (locationChecksum l) := by
+  intro c hc hill
+  have hm : c ∈ hexChars := hexAux_mem 8 _ [] (by simp) c hc
+  have := List.all_eq_true.mp hexChars_legal c hm
+  simp [hill] at this
+
 /-- a successful `add_cds_feature`: the feature is appended under a name and a location that no
     earlier CDS feature of the record has; the name is `get_name()` or `get_name()_checksum` -/
-theorem addCds_ok {s s' : GState} {c : Cds} {chk n : Str} (h : addCds s c chk = .ok (s', n)) :
-    n ∉ s.cdss.map (·.1) ∧ c.loc ∉ s.cdss.map (·.2) ∧ s'.cdss = s.cdss ++ [(n, c.loc)] ∧ s'.genes = s.genes ∧
-    ∃ name, c.getName = some name ∧ (n = name ∨ n = name ++ '_' :: chk) := by
+theorem addCds_ok {s s' : GState} {c : Cds} {n : Str} (h : addCds s c = .ok (s', n)) :
+    n ∉ s.cdss.map (·.1) ∧ locChars c.loc ∉ s.cdss.map (fun x => locChars x.2) ∧
+    s'.cdss = s.cdss ++ [(n, c.loc)] ∧ s'.genes = s.genes ∧
+    ∃ name, c.getName = some name ∧ (n = name ∨ n = name ++ '_' :: locationChecksum c.loc) := by
   unfold addCds at h
   split at h
   · simp at h
@@ -102,7 +133,7 @@ theorem addCds_ok {s s' : GState} {c : Cds} {chk n : Str} (h : addCds s c chk = 
     split at h
     · simp at h
     · rename_i hloc
-      have hloc : c.loc ∉ s.cdss.map (·.2) := hasLocation_false.mp (by simpa using hloc)
+      have hloc := hasLocation_false.mp (by simpa using hloc)
       split at h
       · rename_i hn
         simp only [Except.ok.injEq, Prod.mk.injEq] at h
@@ -118,14 +149,14 @@ theorem addCds_ok {s s' : GState} {c : Cds} {chk n : Str} (h : addCds s c chk = 
             · rename_i hnew
               simp only [Except.ok.injEq, Prod.mk.injEq] at h
               obtain ⟨rfl, rfl⟩ := h
-              have : s.cdsByName (name ++ '_' :: chk) = none := by
-                cases hc : s.cdsByName (name ++ '_' :: chk) with
+              have : s.cdsByName (name ++ '_' :: locationChecksum c.loc) = none := by
+                cases hc : s.cdsByName (name ++ '_' :: locationChecksum c.loc) with
                 | none => rfl
                 | some _ => simp [hc] at hnew
               exact ⟨cdsByName_none.mp this, hloc, rfl, rfl, name, hname, Or.inr rfl⟩
 
 /-- the bookkeeping invariant: pairwise distinct names, pairwise distinct locations -/
-def GInv (s : GState) : Prop := (s.cdss.map (·.1)).Nodup ∧ (s.cdss.map (·.2)).Nodup
+def GInv (s : GState) : Prop := (s.cdss.map (·.1)).Nodup ∧ (s.cdss.map (fun x => locChars x.2)).Nodup
 
 theorem nodup_append_singleton {α} {l : List α} {x : α} (h : l.Nodup) (hx : x ∉ l) : (l ++ [x]).Nodup := by
   rw [List.nodup_append]
@@ -137,8 +168,8 @@ theorem nodup_append_singleton {α} {l : List α} {x : α} (h : l.Nodup) (hx : x
 theorem applyOp_inv {s : GState} (op : GOp) (h : GInv s) : GInv (applyOp s op) := by
   cases op with
   | gene name loc => exact h
-  | cds loc lt g p chk =>
-    cases hok : addCds s (mkCds loc lt g p) chk with
+  | cds loc lt g p =>
+    cases hok : addCds s (mkCds loc lt g p) with
     | error e => simp only [applyOp, hok]; exact h
     | ok r =>
       obtain ⟨s', n⟩ := r
@@ -156,17 +187,13 @@ theorem runOps_inv : ∀ (ops : List GOp) {s : GState}, GInv s → GInv (runOps 
     simp only [List.foldl_cons]
     exact runOps_inv ops (applyOp_inv op h)
 
-/-- names stay free of illegal characters when the checksums are (hex digits are) -/
-def chkSafe : GOp → Prop
-  | .gene _ _ => True
-  | .cds _ _ _ _ chk => GSafe chk
-
-theorem applyOp_safe {s : GState} (op : GOp) (hc : chkSafe op) (h : ∀ x ∈ s.cdss, GSafe x.1) :
+/-- names stay free of illegal characters -/
+theorem applyOp_safe {s : GState} (op : GOp) (h : ∀ x ∈ s.cdss, GSafe x.1) :
     ∀ x ∈ (applyOp s op).cdss, GSafe x.1 := by
   cases op with
   | gene name loc => exact h
-  | cds loc lt g p chk =>
-    cases hok : addCds s (mkCds loc lt g p) chk with
+  | cds loc lt g p =>
+    cases hok : addCds s (mkCds loc lt g p) with
     | error e => simp only [applyOp, hok]; exact h
     | ok r =>
       obtain ⟨s', n⟩ := r
@@ -186,15 +213,164 @@ theorem applyOp_safe {s : GState} (op : GOp) (hc : chkSafe op) (h : ∀ x ∈ s.
           · exact hs c hm
           · rcases List.mem_cons.mp hm with rfl | hm
             · exact underscore_gene_legal
-            · exact hc c hm
+            · exact locationChecksum_safe _ c hm
 
-theorem runOps_safe : ∀ (ops : List GOp) {s : GState}, (∀ op ∈ ops, chkSafe op) → (∀ x ∈ s.cdss, GSafe x.1) →
+theorem runOps_safe : ∀ (ops : List GOp) {s : GState}, (∀ x ∈ s.cdss, GSafe x.1) →
     ∀ x ∈ (runOps s ops).cdss, GSafe x.1
-  | [], _, _, h => h
-  | op :: ops, s, hc, h => by
+  | [], _, h => h
+  | op :: ops, s, h => by
     unfold runOps
     simp only [List.foldl_cons]
-    exact runOps_safe ops (fun o ho => hc o (List.mem_cons_of_mem _ ho))
-      (applyOp_safe op (hc op List.mem_cons_self) h)
+    exact runOps_safe ops (applyOp_safe op h)
+
+/-- distinct textual keys mean distinct locations -/
+theorem locs_nodup_of_keys {l : List (Str × Loc)} (h : (l.map (fun x => locChars x.2)).Nodup) :
+    (l.map (·.2)).Nodup := by
+  have : l.map (fun x => locChars x.2) = (l.map (·.2)).map locChars := by simp [List.map_map]
+  rw [this] at h
+  exact List.Nodup.of_map _ h
+
+/-- the three input errors are the only rejections; a rejected call leaves the record as it was -/
+theorem applyOp_rejected {s : GState} {loc : Loc} {lt g p : Option Str} {e : GErr}
+    (h : addCds s (mkCds loc lt g p) = .error e) : applyOp s (.cds loc lt g p) = s := by
+  simp only [applyOp, h]
+
+/-! ### `Record.from_biopython` -/
+
+theorem addCds_inv {s s' : GState} {c : Cds} {n : Str} (hok : addCds s c = .ok (s', n)) (h : GInv s) : GInv s' := by
+  obtain ⟨h1, h2, h3, _, _⟩ := addCds_ok hok
+  unfold GInv
+  rw [h3]
+  simp only [List.map_append, List.map_cons, List.map_nil]
+  exact ⟨nodup_append_singleton h.1 h1, nodup_append_singleton h.2 h2⟩
+
+theorem addCds_safe {s s' : GState} {loc : Loc} {lt g p : Option Str} {n : Str}
+    (hok : addCds s (mkCds loc lt g p) = .ok (s', n)) (h : ∀ x ∈ s.cdss, GSafe x.1) : ∀ x ∈ s'.cdss, GSafe x.1 := by
+  obtain ⟨_, _, h3, _, name, hname, hn⟩ := addCds_ok hok
+  rw [h3]
+  intro x hx
+  rcases List.mem_append.mp hx with hx | hx
+  · exact h x hx
+  · simp only [List.mem_singleton] at hx
+    subst hx
+    have hs := (mkCds_getName_safe hname).1
+    rcases hn with rfl | rfl
+    · exact hs
+    · intro c hm
+      rcases List.mem_append.mp hm with hm | hm
+      · exact hs c hm
+      · rcases List.mem_cons.mp hm with rfl | hm
+        · exact underscore_gene_legal
+        · exact locationChecksum_safe _ c hm
+
+theorem fromBiopython_inv : ∀ (fs : List BioFeat) {s s' : GState}, fromBiopython s fs = .ok s' →
+    GInv s → (∀ x ∈ s.cdss, GSafe x.1) → GInv s' ∧ ∀ x ∈ s'.cdss, GSafe x.1
+  | [], s, s', h, hi, hs => by
+    simp only [fromBiopython, Except.ok.injEq] at h
+    exact h ▸ ⟨hi, hs⟩
+  | f :: fs, s, s', h, hi, hs => by
+    unfold fromBiopython at h
+    split at h
+    · split at h
+      · simp at h
+      · rename_i s1 n hok
+        exact fromBiopython_inv fs h (addCds_inv hok hi) (addCds_safe (by unfold cdsOfBio at hok; exact hok) hs)
+    · exact fromBiopython_inv fs h hi hs
+
+theorem truthy_map_sanitise (o : Option Str) : truthy (o.map sanitiseIdValue) = truthy o := by
+  cases o with
+  | none => rfl
+  | some x => cases x <;> rfl
+
+theorem truthy_ne_none {o : Option Str} (h : truthy o = true) : o ≠ none := by
+  cases o with
+  | none => simp [truthy] at h
+  | some _ => simp
+
+theorem getName_ne_none {c : Cds} (h : (truthy c.locusTag || truthy c.gene || truthy c.proteinId) = true) :
+    c.getName ≠ none := by
+  unfold Cds.getName
+  split
+  · rename_i h1; exact truthy_ne_none h1
+  · split
+    · rename_i h2; exact truthy_ne_none h2
+    · split
+      · rename_i h3; exact truthy_ne_none h3
+      · simp_all
+
+theorem positionalName_truthy (pre : Str) (l : Loc) : truthy (some (positionalName pre l)) = true := by
+  unfold positionalName
+  cases pre with
+  | nil =>
+    cases h : intChars l.start with
+    | nil => rfl
+    | cons _ _ => rfl
+  | cons _ _ => rfl
+
+/-- a CDS feature read from a file always has an identifier (position-based if need be) -/
+theorem cdsOfBio_named (f : BioFeat) : (cdsOfBio f).getName ≠ none := by
+  apply getName_ne_none
+  unfold cdsOfBio mkCds
+  simp only [truthy_map_sanitise]
+  split
+  · rename_i h
+    simp only [Bool.or_eq_true] at h ⊢
+    tauto
+  · simp [positionalName_truthy]
+
+theorem pairwiseDistinct_iff' {α} [BEq α] [LawfulBEq α] : ∀ {l : List α}, IdSpec.pairwiseDistinct l = true ↔ l.Nodup
+  | [] => by simp [IdSpec.pairwiseDistinct]
+  | x :: xs => by
+    simp only [IdSpec.pairwiseDistinct, Bool.and_eq_true, List.nodup_cons, pairwiseDistinct_iff' (l := xs),
+      List.all_eq_true, Bool.not_eq_true', beq_eq_false_iff_ne, ne_eq]
+    constructor
+    · exact fun ⟨h1, h2⟩ => ⟨fun hm => h1 x hm rfl, h2⟩
+    · exact fun ⟨h1, h2⟩ => ⟨fun y hy heq => h1 (heq ▸ hy), h2⟩
+
+theorem addCds_noIdentifier {s : GState} {c : Cds} (h : addCds s c = .error .noIdentifier) : c.getName = none := by
+  unfold addCds at h
+  split at h
+  · rename_i hn; exact hn
+  · split at h
+    · simp at h
+    · split at h
+      · simp at h
+      · split at h
+        · simp at h
+        · split at h
+          · simp at h
+          · simp only at h
+            split at h <;> simp at h
+
+theorem fromBiopython_err : ∀ (fs : List BioFeat) {s : GState} {e : GErr}, fromBiopython s fs = .error e →
+    e = .dupLocation ∨ e = .dupName
+  | [], _, _, h => by simp [fromBiopython] at h
+  | f :: fs, s, e, h => by
+    unfold fromBiopython at h
+    split at h
+    · split at h
+      · rename_i e' herr
+        simp only [Except.error.injEq] at h
+        subst h
+        cases e' with
+        | noIdentifier => exact absurd (addCds_noIdentifier herr) (cdsOfBio_named f)
+        | dupLocation => exact Or.inl rfl
+        | dupName => exact Or.inr rfl
+      · exact fromBiopython_err fs h
+    · exact fromBiopython_err fs h
+
+theorem genesOk_of_inv {s : GState} (h : GInv s) (hs : ∀ x ∈ s.cdss, GSafe x.1) : IdSpec.genesOk s.cdss = true := by
+  unfold IdSpec.genesOk
+  simp only [Bool.and_eq_true, List.all_eq_true]
+  exact ⟨⟨pairwiseDistinct_iff'.mpr h.1, pairwiseDistinct_iff'.mpr (locs_nodup_of_keys h.2)⟩,
+    fun x hx => (gsafe_iff _).mp (hs x hx)⟩
+
+theorem genesOk_of_runOps (ops : List GOp) : IdSpec.genesOk (runOps {} ops).cdss = true := by
+  have h := runOps_inv ops (s := {}) ⟨List.nodup_nil, List.nodup_nil⟩
+  have hs := runOps_safe ops (s := {}) (by simp)
+  unfold IdSpec.genesOk
+  simp only [Bool.and_eq_true, List.all_eq_true]
+  exact ⟨⟨pairwiseDistinct_iff'.mpr h.1, pairwiseDistinct_iff'.mpr (locs_nodup_of_keys h.2)⟩,
+    fun x hx => (gsafe_iff _).mp (hs x hx)⟩
 
 end ASV.Ids
